@@ -229,7 +229,7 @@ Example C08_write_error_collected_at_skipped_stripes :
   forallb (fun n => let r := krun (Threaded n) WEio in
      (length (w_fpos r) =? 1) && run_failing (w_run r) && (ro_nio (w_run r) =? 1) && (length (w_lost r) =? 0) &&
      negb (recorded_healthy (ro_content (w_run r)) 0) && recorded_healthy (ro_content (w_run r)) 1 && recorded_healthy (ro_content (w_run r)) 7)
-    [2; 3; 8; 128] = true /\
+    [3; 4; 8; 128] = true /\
   (let r := krun (Threaded 3) WErr in ro_bailed (w_run r) = true /\ run_failing (w_run r) = true /\ w_iters r = 1 /\
      recorded_healthy (ro_content (w_run r)) 0 = false) /\
   (let r := krun (Threaded 3) WShort in ro_bailed (w_run r) = true /\ run_failing (w_run r) = true /\
